@@ -5433,6 +5433,7 @@ fn stream_comments(m: &mut Model, rep: &mut Report, rng: &Rng, thorough: bool) {
 // R3 = the statement) and every step is judged on the REAL outputs against the step before it:
 //   R0 = the direct engine call's rows, in its order              …/rows_differ_from_direct_engine_call
 //   R1 = a permutation of R0, sorted the way the items say        …/order_by_result_is_not_a_sorted_permutation_of_the_unordered_result
+//        rows that tie on every item in R0's order                …/order_by_ties_are_not_in_engine_order
 //   R2 = R1 without its first o rows                              …/offset_result_is_not_the_result_without_offset_minus_its_first_rows
 //   R3 = the first k rows of R2                                   …/limit_result_is_not_the_prefix_of_the_unlimited_result
 // (site = query_router::QueryRouter::exec_select | exec_select_with_joins), and R3 is compared with the Lean model
@@ -5858,6 +5859,17 @@ fn xs_eval(db: &XDb, st: &XStmt) -> XEval {
                 format!("{site}/order_by_result_is_not_a_sorted_permutation_of_the_unordered_result"),
                 format!("`{t1}` returned {} ; without ORDER BY: {}", x_show(&r1), x_show(&r0)),
             ));
+        } else if let (Ok(x), Ok(y)) = (&r0, &r1) {
+            // rows that tie on every item stay in the engine's order (ExecProps.order_by_keeps_ties_in_engine_order):
+            // this is what makes `ORDER BY … LIMIT k OFFSET o` a function of the statement and the engine's answer
+            let pos = |r: &XB| x.iter().position(|b| b.canon == r.canon);
+            let bad = y.windows(2).find(|w| x_doc_cmp(&st.order, &w[0], &w[1]) == Some(std::cmp::Ordering::Equal) && pos(&w[0]) > pos(&w[1]));
+            if let Some(w) = bad {
+                viol.push((
+                    format!("{site}/order_by_ties_are_not_in_engine_order"),
+                    format!("`{t1}` returned [{}] before [{}]; they tie on every ORDER BY item and the engine returns them the other way round ({} rows)", w[0].canon, w[1].canon, y.len()),
+                ));
+            }
         }
     }
     // R2
@@ -6160,8 +6172,9 @@ fn xs_directed(m: &mut Model, rep: &mut Report, cx: &mut XCtx, rng: &Rng) {
     }
 }
 
-fn x_gen_rows(r: &mut Rng) -> (Vec<XRow>, Vec<URow>) {
-    let n = if r.chance(1, 8) { 0 } else { 1 + r.below(8) as usize };
+/// `big`: 21..60 rows with few distinct values — many ties, and the sizes at which `sort_by` leaves its small-slice path
+fn x_gen_rows(r: &mut Rng, big: bool) -> (Vec<XRow>, Vec<URow>) {
+    let n = if big { 21 + r.below(40) as usize } else if r.chance(1, 8) { 0 } else { 1 + r.below(8) as usize };
     let t = (0..n)
         .map(|_| XRow {
             a: if r.chance(1, 4) { None } else { Some(r.below(3) as i64) },
@@ -6235,13 +6248,15 @@ fn stream_xsel(m: &mut Model, rep: &mut Report, rng: &Rng, thorough: bool, cx: &
     let mut r = rng.fork("xsel");
     let dbs = if thorough { 1500 } else { 120 };
     for i in 0..dbs {
-        let (t, u) = x_gen_rows(&mut r);
+        let big = i % 8 == 7;
+        let (t, u) = x_gen_rows(&mut r, big);
+        rep.hit(if big { "xsel.table.21_to_60_rows" } else { "xsel.table.0_to_8_rows" });
         let db = xdb(&t, &u);
         xs_aggregates(rep, cx, &db, &t, &u, &mut r, "xsel.random.aggregate");
         if i % 4 == 0 {
             xs_dml(rep, cx, &t, &u, &mut r, "xsel.random.dml");
         }
-        for _ in 0..40 {
+        for _ in 0..(if big { 12 } else { 40 }) {
             let shape = x_gen_shape(&mut r);
             let m_rows = x_direct(&db, &shape).map_or(0, |b| b.len());
             let st = XStmt { limit: x_gen_clause(&mut r, m_rows), offset: x_gen_clause(&mut r, m_rows), ..shape };
@@ -6896,7 +6911,8 @@ fn main() {
         "xsel.order.nulls_clause", "xsel.projection.columns", "xsel.where", "xsel.result_rows.0", "xsel.result_rows.1", "xsel.result_rows.2",
         "xsel.family.aggregate", "xsel.family.group_by", "xsel.family.group_by_having", "xsel.family.delete_all", "xsel.family.delete_where",
         "xsel.family.update", "xsel.family.insert_rows", "xsel.family.insert_positional", "xsel.family.node_list", "xsel.family.edge_list",
-        "xsel.family.find", "xsel.family.show_embeddings", "xsel.family.similar", "xsel.family.neighbors", "xsel.family.path"] {
+        "xsel.family.find", "xsel.family.show_embeddings", "xsel.family.similar", "xsel.family.neighbors", "xsel.family.path",
+        "xsel.table.21_to_60_rows", "xsel.table.0_to_8_rows"] {
         rep.expected_branches.push(k.to_string());
     }
     directed_known(&mut rep);
